@@ -3,6 +3,7 @@ Theorems over the regenerated wiring + the real process against the reference AM
 import concurrent.futures as cf, os, re, sys
 from .. import common as C, gen, proc
 from ..prop import Check
+from . import C12
 
 COUNT_KEYS = ["Test_ue_registation", "Test_ue_pdu_establishment", "Test_ue_service", "Test_ue_pdu_release", "Test_ue_deregistration"]
 BANNER = ">> All tests finished"
@@ -18,10 +19,31 @@ FINDING_KEYS = [
 ]
 
 
+class AssignedValues(C12.TransferLib):
+    """"reports exactly the UE IPv4 address, uplink TEID and UPF address the network assigned": every value of every
+    octet of the UPF address and of the TEID, in transfers built by the library's own encoder, through the emulator's
+    extractor and the Coq model of it (C12 proves exactness for all of them; this stream ties the claim to the code here)"""
+    name = "assigned-values"
+
+    def generate(self, rng, tier):
+        cs = []
+        for pos in range(8):
+            for v in range(256):
+                b = bytearray(rng.bytes(8))
+                b[pos] = v
+                if rng.chance(1, 2):            # the rest of the address as in common deployments (10.x, 172.x, 192.168.x)
+                    b[0] = rng.choice([10, 172, 192])
+                    if pos == 0:
+                        b[0] = v
+                cs.append({"dl": rng.choice([-1, 10 ** 9, 4 * 10 ** 12]), "ul": rng.choice([1, 10 ** 9]), "addr": bytes(b[:4]).hex(), "teid": bytes(b[4:]).hex(),
+                           "pdutype": rng.choice([-1, 0]), "qfi": rng.choice([1, 5, 9, rng.below(64)])})
+        return cs
+
+
 class C02(Check):
     pid = "C02"
     prop_files = ["Properties/C02.v"]
-    streams = []
+    streams = [AssignedValues()]
     trusted = ["Coq 8.16.1 kernel incl. vm_compute (no native_compute)", "no axioms (Print Assumptions: closed under the global context)",
                "translator gen-mainwiring (go/ast): loop bounds (Min clamps) and call order of main() regenerated from the working tree",
                "refamf/ Python reference AMF/SMF (non-strict: deviations are collected and must all fall under a recorded known finding)",
